@@ -172,6 +172,9 @@ class World:
         self.trigger_pulls = 0
         self.map_mutations = []
         self.failed = None
+        self._last_poll_nevents = -1
+        self._idle_polls = 0
+        self.spinning = False
         kw = dict(adj_kw or {})
         with warnings.catch_warnings():
             warnings.simplefilter("ignore")
@@ -266,9 +269,22 @@ class World:
         if mt.role == "worker":
             self.worker_threads.append(mt)
 
+    SPIN_POLLS = 40
+
     def note_poll_enter(self, kind):
         self.in_poll = True
         self.count("poll-enter:" + kind)
+        # spin detection: the loop polls again and again without any event in
+        # the world while nobody else can run: the state is a fixpoint
+        if self.nevents == self._last_poll_nevents:
+            self._idle_polls += 1
+            if self._idle_polls >= self.SPIN_POLLS and self.sched.idle():
+                self.spinning = True
+                self.in_poll = False
+                self.sched.stop("spinning")
+        else:
+            self._idle_polls = 0
+            self._last_poll_nevents = self.nevents
 
     def note_poll_exit(self, result):
         self.in_poll = False
